@@ -38,6 +38,25 @@ namespace sqf
             d_hashmap(std::unordered_map<sqf::runtime::value, sqf::runtime::value> map) : m_map(map) {}
 
             sqf::runtime::type type() const override { return data_type(); }
+            // False if the map is a key or value of its own or of a container it holds.
+            bool recursion_test_(std::vector<const sqf::runtime::data*>& path) const override
+            {
+                if (std::find(path.begin(), path.end(), this) != path.end())
+                {
+                    return false;
+                }
+                path.push_back(this);
+                for (auto& it : m_map)
+                {
+                    if ((!it.first.empty() && !it.first.data()->recursion_test_(path)) ||
+                        (!it.second.empty() && !it.second.data()->recursion_test_(path)))
+                    {
+                        return false;
+                    }
+                }
+                path.pop_back();
+                return true;
+            }
             virtual std::size_t hash() const override
             {
                 // Equal maps must hash equally whatever order their entries are
